@@ -799,6 +799,7 @@ impl StorageEngine {
                 
                 if is_empty {
                     shard_guard.data.remove(key);
+                    shard_guard.expiring_keys.remove(key);
                 } 
                 // NO else branch with touch() - no access time tracking overhead
             }
@@ -1083,6 +1084,7 @@ impl StorageEngine {
                     
                     if is_empty {
                         shard_guard.data.remove(key);
+                        shard_guard.expiring_keys.remove(key);
                     }
                     
                     Ok(element)
@@ -1111,6 +1113,7 @@ impl StorageEngine {
                     
                     if is_empty {
                         shard_guard.data.remove(key);
+                        shard_guard.expiring_keys.remove(key);
                     }
                     
                     Ok(element)
@@ -1250,6 +1253,7 @@ impl StorageEngine {
                     
                     if is_empty {
                         shard_guard.data.remove(&key);
+                        shard_guard.expiring_keys.remove(&key);
                     }
                     
                     Ok(())
@@ -1318,6 +1322,7 @@ impl StorageEngine {
                     
                     if is_empty {
                         shard_guard.data.remove(&key);
+                        shard_guard.expiring_keys.remove(&key);
                     }
                     
                     Ok(removed)
@@ -1390,6 +1395,7 @@ impl StorageEngine {
                     if is_empty {
                         shard_guard.mark_modified(key); // Mark before removal
                         shard_guard.data.remove(key);
+                        shard_guard.expiring_keys.remove(key);
                     } else if removed > 0 {
                         shard_guard.mark_modified(key); // Now safe to call
                     }
@@ -1638,6 +1644,7 @@ impl StorageEngine {
                     
                     if is_empty {
                         shard_guard.data.remove(&key);
+                        shard_guard.expiring_keys.remove(&key);
                     }
                     
                     Ok(result)
@@ -1749,6 +1756,7 @@ impl StorageEngine {
                     
                     if hash.is_empty() {
                         shard_guard.data.remove(&key);
+                        shard_guard.expiring_keys.remove(&key);
                     } 
                     // NO else branch with touch() - no access time tracking overhead
                     shard_guard.mark_modified(&key);
